@@ -35,7 +35,8 @@ Fixpoint esc (q prev : N) (s : str) : str :=
       else c :: esc q c r
   end.
 
-(* what translate_literal hands to the database for Literal::String(s) / RawString(s) *)
+(* sqlparser's Display of Value::SingleQuotedString(s) -- applied by prqlc to the PRE-DOUBLED literal value
+   (emit_literal_string below) and, unchanged, to date/time texts *)
 Definition emit_string (s : str) : str := QUOTE :: esc QUOTE 0 s ++ [QUOTE].
 (* what Ident::with_quote(q, s) prints, q one of DQUOTE, QUOTE, BACKTICK *)
 Definition emit_quoted (q : N) (s : str) : str := q :: esc q 0 s ++ [q].
@@ -57,7 +58,7 @@ Fixpoint contains2 (a b : N) (s : str) : bool :=
   | [] => false
   end.
 
-(* The class of values on which EscapeQuotedString does not double every quote (finding F6 / F18):
+(* The class of values on which EscapeQuotedString ALONE does not double every quote (why findings F6 / F18 existed):
    the value contains  q q  or  \ q . *)
 Definition esc_known (q : N) (s : str) : bool := contains2 q q s || contains2 BSLASH q s.
 
@@ -71,7 +72,8 @@ Fixpoint good (q prev : N) (s : str) : bool :=
       else good q c r
   end.
 
-(* A repaired emitter (what fixes/F06-*.diff makes prqlc do): double every quote itself, then hand
-   the result to the same sqlparser Display (which then finds only already-doubled quotes). *)
-Definition emit_string_fixed (s : str) : str := emit_string (dbl QUOTE s).
-Definition emit_quoted_fixed (q : N) (s : str) : str := emit_quoted q (dbl q s).
+(* What prqlc does NOW (fix commits e3af91e for string literals, 68466ba for identifiers): it doubles every
+   quote character itself -- s.replace(q, qq) -- and hands the result to the same sqlparser Display, which then
+   finds only already-doubled quotes and prints them unchanged (Proofs/EscapeProofs.v, esc_dbl). *)
+Definition emit_literal_string (s : str) : str := emit_string (dbl QUOTE s).      (* translate_literal, String / RawString *)
+Definition emit_ident_quoted (q : N) (s : str) : str := emit_quoted q (dbl q s).   (* translate_ident_part, quoted form *)
